@@ -643,6 +643,8 @@ class Engine:
             return SFunc("builtin", name)
         if name in self.repo.classes:
             return SClass(name)
+        if name == "Collection":                                   # collections.abc.Collection, for specifications
+            return SClass("Collection")
         raise EngineError(f"unbound name {name!r} in {fr.finfo.qualname if fr.finfo else '?'}")
 
     def const_value(self, node, mod, st, fr):
